@@ -118,7 +118,7 @@ func authCases() []authCase {
 		{"right", []string{"Authorization: " + secret}, true},
 		{"right-ows", []string{"Authorization:   " + secret + "  "}, true},
 		{"wrong", []string{"Authorization: Bearer other"}, false},
-		{"case", []string{"Authorization: " + strings.ToLower(secret)}, false},
+		{"case", []string{"Authorization: " + strings.ToLower(secret)}, strings.ToLower(secret) == secret},
 		{"inner-ws", []string{"Authorization: Bearer  s3cr3t-Token"}, false},
 		{"prefix", []string{"Authorization: " + secret[:len(secret)-1]}, false},
 		{"suffix", []string{"Authorization: " + secret + "x"}, false},
